@@ -70,8 +70,9 @@ class ConnectedStreamClient(_transports.AsyncBaseTransport, Generic[_T_Response]
         """
         Closes the endpoint.
         """
-        with self.__send_guard:
-            await self.__transport.aclose()
+        # NOTE: Do not take the send guard. Closing must be possible while another task is blocked in send_packet()
+        #       (e.g. the peer does not read), especially when the close is forced by a cancellation.
+        await self.__transport.aclose()
 
     async def send_packet(self, packet: _T_Response) -> None:
         """
